@@ -570,9 +570,38 @@ bool prop_C08(Tape& t, Report& rep)
     {
         // game flow on one table: search a (near-)mating position, then follow the announced line for two plies and search
         // again, and again — every later search reads entries that the earlier ones wrote at another distance from the root
-        bool found;
-        ref::Pos root = t.flag() ? mate_in_one_root(t, rep, found) : forcing_back_rank(t, rep);
-        // back up a little so that the first search has a mate of several moves in front of it: start two plies earlier when possible
+        // heavy pieces against an (almost) bare king on the edge with no mate in one: forced mates of two to four moves,
+        // which a depth 3-5 search finds and then has to follow up move by move
+        ref::Pos root = forcing_back_rank(t, rep);
+        for (int attempt = 0; attempt < 6; ++attempt)
+        {
+            ref::Pos p;
+            bool w = !t.flag();
+            p.wtm = w;
+            int ef = int(t.choose(8)), er = t.flag() ? 0 : 7;
+            if (t.flag()) std::swap(ef, er);
+            int wk = ref::SQ(ef & 7, er & 7);
+            p.b[wk] = w ? 'k' : 'K';
+            int sk = gen::free_square(t, p, false);
+            if (sk < 0 || std::max(std::abs(ref::FL(sk) - ref::FL(wk)), std::abs(ref::RK(sk) - ref::RK(wk))) < 2) continue;
+            p.b[sk] = w ? 'K' : 'k';
+            const char* sets[] = {"q", "rr", "qr", "r", "qb", "rn"};
+            for (const char* c = sets[t.choose(6)]; *c; ++c)
+            {
+                int s = gen::free_square(t, p, false);
+                if (s >= 0) p.b[s] = w ? char(std::toupper(*c)) : *c;
+            }
+            if (t.chance(1, 3))
+            {
+                int s = gen::free_square(t, p, true);
+                if (s >= 0) p.b[s] = w ? 'p' : 'P';  // a defender's pawn: no stalemate tricks, a move to spare
+            }
+            gen::repair_not_to_move_check(p);
+            if (!ref::domain_violation(p).empty() || ref::legal_moves(p).empty() || !ref::mates_in_one(p).empty()) continue;
+            root = p;
+            rep.cls("c08:game_flow_multi_move_root");
+            break;
+        }
         int steps = 2 + int(t.choose(3));
         for (int s = 0; s < steps; ++s)
         {
